@@ -148,6 +148,22 @@ func runCase3(f []string) (string, bool) {
 		return fmt.Sprintf("ok %d %s", p, canon(c)), true
 	case "rhist":
 		return runReaderHist(f), true
+	case "hint":
+		// hint <n1,n2,..> <m1,..> ... : ReadArray calls on ONE reader, call j on the document
+		// [{n1 keys},{n2 keys},...]; prints the reader's remembered map hint and slice hint after each
+		rd := &rjson.ValueReader{}
+		var outs []string
+		for _, c := range f[1:] {
+			var parts []string
+			for _, ns := range strings.Split(c, ",") {
+				n, _ := strconv.Atoi(ns)
+				parts = append(parts, keysObj(n))
+			}
+			_, _, err := rd.ReadArray([]byte("[" + strings.Join(parts, ",") + "]"))
+			st := rd.VerifReaderState()
+			outs = append(outs, fmt.Sprintf("%v_%d_%d", err == nil, st.MaxMapSize, st.LastSliceSize))
+		}
+		return strings.Join(outs, " "), true
 	case "compose":
 		return runCompose(f), true
 	}
